@@ -203,42 +203,56 @@ func (c *Config) Parent() *Config {
 
 // FlattenedKeys return a sorted flattened views of the set keys in the configuration
 func (c *Config) FlattenedKeys(opts ...Option) []string {
-	var keys []string
 	normalizedOptions := makeOptions(opts)
 
 	if normalizedOptions.pathSep == "" {
 		normalizedOptions.pathSep = "."
 	}
 
+	keys := c.flattenedKeys(normalizedOptions)
+	sort.Strings(keys)
+	return keys
+}
+
+// flattenedKeys collects the keys below c. All sub-configurations are visited
+// with the same options: the set of references under evaluation is kept while
+// descending (a reference back to an enclosing object is reported as a cyclic
+// reference and ends the descent) and every child is evaluated in a scope of
+// its own (siblings may reference the same setting).
+func (c *Config) flattenedKeys(opts *options) []string {
+	var keys []string
+
+	parentFields := opts.activeFields
+	defer func() { opts.activeFields = parentFields }()
+
 	if c.IsDict() {
 		for _, v := range c.fields.dict() {
-
-			subcfg, err := v.toConfig(normalizedOptions)
+			opts.activeFields = newFieldSet(parentFields)
+			subcfg, err := v.toConfig(opts)
 			if err != nil {
 				ctx := v.Context()
-				p := ctx.path(normalizedOptions.pathSep)
+				p := ctx.path(opts.pathSep)
 				keys = append(keys, p)
 			} else {
-				newKeys := subcfg.FlattenedKeys(opts...)
+				newKeys := subcfg.flattenedKeys(opts)
 				keys = append(keys, newKeys...)
 			}
 		}
 	} else if c.IsArray() {
 		for _, a := range c.fields.array() {
-			scfg, err := a.toConfig(normalizedOptions)
-
+			opts.activeFields = newFieldSet(parentFields)
+			scfg, err := a.toConfig(opts)
 			if err != nil {
 				ctx := a.Context()
-				p := ctx.path(normalizedOptions.pathSep)
+				p := ctx.path(opts.pathSep)
 				keys = append(keys, p)
 			} else {
-				newKeys := scfg.FlattenedKeys(opts...)
+				newKeys := scfg.flattenedKeys(opts)
 				keys = append(keys, newKeys...)
 			}
 		}
 	}
 
-	sort.Strings(keys)
 	return keys
 }
 
